@@ -1,7 +1,7 @@
 ---- MODULE RLSCacheMC ----
 (* bounded-history wrapper of RLSCache for exhaustive checking and behaviour generation *)
 EXTENDS RLSCache
-CONSTANTS NK, Sizes, Dlys, Ttls, MaxMax, MaxNow, MaxEvents, InitMax
+CONSTANTS NK, Sizes, Dlys, Ttls, Resizes, MaxNow, MaxEvents, InitMax
 VARIABLE nev
 vars == <<cvars, nev>>
 Init == CInit /\ max = InitMax /\ nev = 0
@@ -15,7 +15,7 @@ ExpireT == Tick /\ Expire
 AdvanceT(d) == Tick /\ now + d <= MaxNow /\ Advance(d)
 Next == \/ \E k \in 1..NK : \/ GetT(k) \/ RemoveT(k)
                             \/ \E sz \in Sizes : UpdT(k, sz) \/ \E dly \in Dlys, ttl \in Ttls : AddT(k, sz, dly, ttl)
-        \/ \E n \in 0..MaxMax : ResizeT(n)
+        \/ \E n \in Resizes : ResizeT(n)
         \/ ExpireT
         \/ \E d \in 1..2 : AdvanceT(d)
 ====
